@@ -13,6 +13,7 @@
 #include <string.h>
 
 #include "EbEncDecSegments.h"
+#include "EbVerifHooks.h"
 
 static void enc_dec_segments_dctor(EbPtr p) {
     EncDecSegments *obj = (EncDecSegments *)p;
@@ -71,6 +72,9 @@ EbErrorType enc_dec_segments_ctor(EncDecSegments *segments_ptr, uint32_t segment
 
 void enc_dec_segments_init(EncDecSegments *segments_ptr, uint32_t segColCount, uint32_t segRowCount,
                            uint32_t pic_width_sb, uint32_t pic_height_sb) {
+#ifdef SVT_AV1_VERIF
+    const uint32_t verif_req_cols = segColCount, verif_req_rows = segRowCount;
+#endif
     segColCount = (segColCount < pic_width_sb) ? segColCount : pic_width_sb;
     segRowCount = (segRowCount < pic_height_sb) ? segRowCount : pic_height_sb;
     segRowCount = (segRowCount < segments_ptr->segment_max_row_count)
@@ -162,6 +166,17 @@ void enc_dec_segments_init(EncDecSegments *segments_ptr, uint32_t segColCount, u
             }
         }
     }
+#ifdef SVT_AV1_VERIF
+    SVT_VERIF_EV("seg", segments_ptr, "InitSeg", pic_width_sb, pic_height_sb, verif_req_cols, verif_req_rows,
+                 segments_ptr->segment_row_count, segments_ptr->segment_band_count, segments_ptr->segment_max_row_count);
+    for (unsigned r = 0; r < segments_ptr->segment_row_count; ++r)
+        SVT_VERIF_EV("seg", segments_ptr, "SegRow", r, segments_ptr->row_array[r].starting_seg_index,
+                     segments_ptr->row_array[r].ending_seg_index);
+    for (unsigned sgi = 0; sgi < segments_ptr->segment_ttl_count; ++sgi)
+        SVT_VERIF_EV("seg", segments_ptr, "SegDef", sgi, segments_ptr->valid_sb_count_array[sgi],
+                     (int16_t)segments_ptr->x_start_array[sgi], (int16_t)segments_ptr->y_start_array[sgi],
+                     segments_ptr->dep_map.dependency_map[sgi]);
+#endif
 
     return;
 }
